@@ -22,6 +22,193 @@ use rustc_hash::FxHashMap;
 use serde_json::{Value, json};
 use std::io::Read;
 
+
+// -------------------------------------------------------------------------------------------------
+// (a') incremental session scripts written by patronus' own command writer
+// -------------------------------------------------------------------------------------------------
+
+#[derive(Clone, Copy, PartialEq, Eq, Debug)]
+enum STy {
+    Bv(u32),
+    Arr(u32, u32),
+}
+
+/// A random incremental solver session (declare / define / assert / push / pop / check / get-value)
+/// built with patronus' `Context` and written with `serialize_cmd`. Scopes are used the way an
+/// incremental client uses them: after `(pop 1)` a name of the closed scope is declared again,
+/// usually with a different sort, and used afterwards.
+fn gen_session_script(rng: &mut Rng) -> Vec<String> {
+    use patronus::expr::ExprRef;
+    let mut ctx = Context::default();
+    let names = ["x", "y", "v", "mem", "t0", "a b", "q\"r", "#b01", "valid", "x1"];
+    let tys = [
+        STy::Bv(1),
+        STy::Bv(3),
+        STy::Bv(5),
+        STy::Bv(8),
+        STy::Bv(16),
+        STy::Bv(33),
+        STy::Bv(64),
+        STy::Bv(65),
+        STy::Arr(2, 1),
+        STy::Arr(3, 8),
+        STy::Arr(1, 5),
+    ];
+    // scopes of visible symbols: (name, type, symbol)
+    let mut scopes: Vec<Vec<(String, STy, ExprRef)>> = vec![vec![]];
+    // names that were visible once and are not now, with the type they had
+    let mut retired: Vec<(String, STy)> = vec![];
+    let mut cmds: Vec<SmtCommand> = vec![SmtCommand::SetLogic(patronus::smt::Logic::All)];
+    let mut constrained: Vec<ExprRef> = vec![];
+    let mut model_available = false;
+    let n = rng.range(8, 40);
+    let visible = |scopes: &Vec<Vec<(String, STy, ExprRef)>>| -> Vec<(String, STy, ExprRef)> {
+        scopes.iter().flatten().cloned().collect()
+    };
+    let mk_sym = |ctx: &mut Context, name: &str, ty: STy| -> ExprRef {
+        match ty {
+            STy::Bv(w) => ctx.bv_symbol(name, w),
+            STy::Arr(i, d) => ctx.array_symbol(name, i, d),
+        }
+    };
+    for _ in 0..n {
+        let vis = visible(&scopes);
+        match rng.below(12) {
+            0..=2 => {
+                // declare: prefer a retired name with another type
+                let (name, ty) = if !retired.is_empty() && rng.chance(3, 4) {
+                    let (nm, old) = retired.remove(rng.usize_below(retired.len()));
+                    let mut ty = *rng.pick(&tys);
+                    if rng.chance(3, 4) {
+                        while ty == old {
+                            ty = *rng.pick(&tys);
+                        }
+                    }
+                    (nm, ty)
+                } else {
+                    (rng.pick(&names).to_string(), *rng.pick(&tys))
+                };
+                if vis.iter().any(|(nm, _, _)| *nm == name) {
+                    continue;
+                }
+                retired.retain(|(nm, _)| *nm != name);
+                let sym = mk_sym(&mut ctx, &name, ty);
+                cmds.push(SmtCommand::DeclareConst(sym));
+                scopes.last_mut().unwrap().push((name, ty, sym));
+                model_available = false;
+            }
+            3 => {
+                // define-const over a visible symbol of the same type
+                if vis.is_empty() {
+                    continue;
+                }
+                let (_, ty, src) = vis[rng.usize_below(vis.len())].clone();
+                let name = format!("d{}", rng.below(4));
+                if vis.iter().any(|(nm, _, _)| *nm == name) {
+                    continue;
+                }
+                retired.retain(|(nm, _)| *nm != name);
+                let sym = mk_sym(&mut ctx, &name, ty);
+                let body = match ty {
+                    STy::Bv(1) => ctx.not(src),
+                    STy::Bv(w) => {
+                        let one = ctx.one(w);
+                        ctx.add(src, one)
+                    }
+                    STy::Arr(i, d) => {
+                        let idx = ctx.zero(i);
+                        let dat = ctx.ones(d);
+                        ctx.array_store(src, idx, dat)
+                    }
+                };
+                cmds.push(SmtCommand::DefineConst(sym, body));
+                scopes.last_mut().unwrap().push((name, ty, sym));
+                model_available = false;
+            }
+            4 | 5 => {
+                // assert something satisfiable: pin a symbol that has not been constrained yet
+                let cands: Vec<_> = vis
+                    .iter()
+                    .filter(|(nm, _, e)| !nm.starts_with('d') && !constrained.contains(e))
+                    .cloned()
+                    .collect();
+                if cands.is_empty() {
+                    continue;
+                }
+                let (_, ty, e) = cands[rng.usize_below(cands.len())].clone();
+                constrained.push(e);
+                let a = match ty {
+                    STy::Bv(1) => {
+                        if rng.bool() {
+                            e
+                        } else {
+                            ctx.not(e)
+                        }
+                    }
+                    STy::Bv(w) => {
+                        let lit = ctx.bit_vec_val(rng.bits_shaped(w.min(64)) as u64, w);
+                        if rng.bool() { ctx.equal(e, lit) } else { ctx.greater_or_equal(e, lit) }
+                    }
+                    STy::Arr(i, d) => {
+                        let idx = ctx.bit_vec_val(rng.bits_shaped(i) as u64, i);
+                        let dat = ctx.bit_vec_val(rng.bits_shaped(d) as u64, d);
+                        let rd = ctx.array_read(e, idx);
+                        ctx.equal(rd, dat)
+                    }
+                };
+                cmds.push(SmtCommand::Assert(a));
+                model_available = false;
+            }
+            6 => {
+                cmds.push(SmtCommand::Push(1));
+                scopes.push(vec![]);
+                model_available = false;
+            }
+            7 | 8 => {
+                if scopes.len() > 1 {
+                    let gone = scopes.pop().unwrap();
+                    for (nm, ty, e) in gone {
+                        constrained.retain(|c| *c != e);
+                        retired.push((nm, ty));
+                    }
+                    cmds.push(SmtCommand::Pop(1));
+                    model_available = false;
+                }
+            }
+            9 => {
+                cmds.push(SmtCommand::CheckSat);
+                model_available = true;
+            }
+            _ => {
+                if !model_available {
+                    cmds.push(SmtCommand::CheckSat);
+                    model_available = true;
+                }
+                if vis.is_empty() {
+                    continue;
+                }
+                let (_, ty, e) = vis[rng.usize_below(vis.len())].clone();
+                let q = match ty {
+                    STy::Bv(w) if w > 1 && rng.bool() => ctx.slice(e, w - 1, w / 2),
+                    STy::Arr(i, _) if rng.bool() => {
+                        let idx = ctx.zero(i);
+                        ctx.array_read(e, idx)
+                    }
+                    _ => e,
+                };
+                cmds.push(SmtCommand::GetValue(q));
+            }
+        }
+    }
+    cmds.iter()
+        .map(|c| {
+            let mut buf: Vec<u8> = vec![];
+            patronus::smt::serialize_cmd(&mut buf, Some(&ctx), c).expect("write to a Vec");
+            String::from_utf8_lossy(&buf).trim_end().to_string()
+        })
+        .collect()
+}
+
 pub struct C14;
 
 fn viol(oracle: &str, class: &str, site: &str, detail: String) -> Violation {
@@ -1070,6 +1257,35 @@ impl Property for C14 {
             acc.count("probe.script_with_check_sat_assuming", case.commands.iter().any(|c| c.starts_with("(check-sat-assuming")) as u64);
             acc.count("probe.script_with_get_unsat_assumptions", case.commands.iter().any(|c| c.starts_with("(get-unsat-assumptions")) as u64);
             acc.count("probe.script_with_truncated_tail", case.truncated_tail.is_some() as u64);
+            if let Some(v) = judge_reader(&case, acc) {
+                return Some((v, case.to_json()));
+            }
+        }
+        // (a') an incremental session script with scopes and re-declared names
+        {
+            let mut srng = Rng::stream(run_seed, "session-script");
+            let commands = gen_session_script(&mut srng);
+            let case = ReaderCase {
+                truncated_tail: if srng.bool() { Some(1 + srng.usize_below(40)) } else { None },
+                commands,
+                seed: crate::rng::mix(&[run_seed, 142]),
+            };
+            acc.evaluations += 1;
+            acc.count("reader.session_scripts", 1);
+            let redeclared = {
+                let mut seen: FxHashMap<&str, &str> = FxHashMap::default();
+                let mut hit = false;
+                for c in &case.commands {
+                    if let Some(rest) = c.strip_prefix("(declare-const ") {
+                        let (name, sort) = rest.split_at(rest.rfind(" (").or(rest.find(' ')).unwrap_or(0));
+                        if let Some(prev) = seen.insert(name, sort) {
+                            hit |= prev != sort;
+                        }
+                    }
+                }
+                hit
+            };
+            acc.count("probe.session_redeclares_name_with_other_sort", redeclared as u64);
             if let Some(v) = judge_reader(&case, acc) {
                 return Some((v, case.to_json()));
             }
